@@ -95,7 +95,27 @@ def expand_bool(fn, cond, pol, out, depth=0):
         if st["k"] in ("BinaryOperator", "CompoundAssignOperator") and st["op"].endswith("=") and st["op"] not in ("==", "!=", "<=", ">="):
             l = fn.s(fn.strip(st["c"][0], casts=True))
             if l["k"] == "DeclRefExpr" and l["ref"]["d"] == d:
-                return      # reassigned: not a pure abbreviation
+                # reassigned: the value tested is that of the last assignment when it sits in the
+                # same basic block as the test, before it, with no other assignment in between
+                pc, pa = fn.block_of(cond), fn.block_of(i)
+                if st["op"] == "=" and pc is not None and pa is not None and pc[0] == pa[0] and pa[1] < pc[1]:
+                    later = False
+                    for j in fn.walk():
+                        sj = fn.s(j)
+                        if j != i and sj["k"] in ("BinaryOperator", "CompoundAssignOperator") and sj["op"].endswith("=") and \
+                                sj["op"] not in ("==", "!=", "<=", ">="):
+                            lj = fn.s(fn.strip(sj["c"][0], casts=True))
+                            pj = fn.block_of(j)
+                            if lj["k"] == "DeclRefExpr" and lj["ref"]["d"] == d and pj is not None and pj[0] == pc[0] and pa[1] < pj[1] < pc[1]:
+                                later = True
+                    if not later:
+                        reaching = st["c"][1]
+                        sub = [(reaching, pol)]
+                        fn._split_logical(reaching, pol, sub)
+                        for cc, pp in sub:
+                            out.append((cc, pp))
+                            expand_bool(fn, cc, pp, out, depth + 1)
+                return      # otherwise not a pure abbreviation
     if init is None:
         return
     sub = [(init, pol)]
@@ -183,11 +203,14 @@ def r_expcut(ctx, prog, rule="R-EXPCUT"):
                 mzero = None
                 lins = []
                 for cond, pol in all_guards(fn, r):
-                    if fn.strip(cond, casts=True) not in body and cond not in body:
-                        continue
                     c = fn.s(fn.strip(cond, casts=True))
                     if c["k"] == "DeclRefExpr" and c["ref"]["d"] == fd:
-                        fpol = pol
+                        fpol = pol      # the flag is loop-invariant: a test outside the loop counts
+                        continue
+                    if fn.strip(cond, casts=True) not in body and cond not in body:
+                        continue
+                    if False:
+                        pass
                     elif c["k"] == "BinaryOperator" and c["op"] in ("==", "!=") and fn.const(c["c"][1]) == 0:
                         a = fn.s(fn.strip(c["c"][0], casts=True))
                         if a["k"] == "DeclRefExpr" and a["ref"]["n"].startswith("mantissa"):
@@ -491,7 +514,7 @@ def simple_lemmas(fn, i, st):
     other = fn.strip(st["c"][1], casts=True)
     for cond, pol in all_guards(fn, i):
         c = fn.s(fn.strip(cond, casts=True))
-        if c["k"] != "BinaryOperator" or c["op"] != ">" or pol is not False:
+        if c["k"] != "BinaryOperator" or not ((c["op"] == ">" and pol is False) or (c["op"] == "<=" and pol is True)):
             continue
         l = fn.s(fn.strip(c["c"][0], casts=True))
         r = fn.s(fn.strip(c["c"][1], casts=True))
@@ -523,7 +546,7 @@ def mul_add_lemma(fn, i, st):
         return None
     for cond, pol in all_guards(fn, i):
         c = fn.s(fn.strip(cond, casts=True))
-        if c["k"] != "BinaryOperator" or c["op"] != ">" or pol is not False:
+        if c["k"] != "BinaryOperator" or not ((c["op"] == ">" and pol is False) or (c["op"] == "<=" and pol is True)):
             continue
         l = fn.s(fn.strip(c["c"][0], casts=True))
         r = fn.s(fn.strip(c["c"][1], casts=True))
